@@ -31,6 +31,9 @@ type c16Cmd struct {
 type c16Hid struct {
 	HO bool `long:"hopt" description:"DESCHO"`
 }
+type c16Gr struct {
+	GR bool `long:"grx" description:"DESCGRX"`
+}
 type c16Root struct {
 	RO  string `short:"r" long:"ropt" description:"DESCRO" default:"DEFRO"`
 	RM  string `long:"rmask" description:"DESCRM" default:"SECRETR" default-mask:"-"`
@@ -38,6 +41,7 @@ type c16Root struct {
 	Grp c16Grp `group:"Main Group" namespace:"mg"`
 	Cmd c16Cmd `command:"cmda" description:"DESCCMDA" alias:"cmdalias"`
 	Hid c16Hid `command:"hcmd" description:"DESCHCMD" hidden:"yes"`
+	Gr  c16Gr  `command:"größe" description:"DESCGR" alias:"gralias"`
 }
 
 type c16Item struct {
@@ -152,6 +156,7 @@ func H_C16_visible(v *V) {
 		// (a command's description also heads its own option block once it is
 		// active, so absence is judged on the alias marker)
 		v.Assert(v.Contains(out, "cmdalias") == wantA && (!wantA || v.Contains(out, "DESCCMDA")), "visible subcommands of the innermost command are listed with their aliases")
+		v.Assert(v.Contains(out, "gralias") == (depth == 0) && (depth != 0 || v.Contains(out, "DESCGR")), "a visible subcommand with a non-ASCII name is listed with its aliases")
 		wantS := depth == 1 && !subc.Hidden
 		v.Assert(v.Contains(out, "subalias") == wantS && (!wantS || v.Contains(out, "DESCSUB")), "visible subcommands of the active command are listed with their aliases")
 	} else {
@@ -172,6 +177,7 @@ func H_C16_visible(v *V) {
 		v.Assert(!v.Contains(out, "SECRETV") && !v.Contains(out, "SECRETR"), "a masked default's real value never appears in the man page")
 		v.Assert(!v.Contains(out, "hcmd") && !v.Contains(out, "DESCHCMD") && !v.Contains(out, "hopt"), "a hidden command is never listed in the man page")
 		v.Assert(v.Contains(out, "DESCCMDA") == !cmda.Hidden && v.Contains(out, "cmdalias") == !cmda.Hidden, "visible commands are listed with their aliases")
+		v.Assert(v.Contains(out, "DESCGR") && v.Contains(out, "gralias") && v.Contains(out, "DESCGRX"), "a visible command with a non-ASCII name is listed in the man page")
 		wantS := !cmda.Hidden && !subc.Hidden
 		v.Assert(v.Contains(out, "DESCSUB") == wantS && v.Contains(out, "subalias") == wantS, "visible subcommands are listed with their aliases")
 	}
